@@ -338,6 +338,67 @@ def kernel_level_forms(ctx):
     ctx.count("kernel-level vacate/fill forms x kernel kinds x grid shapes: agree with the methods", n_ok)
 
 
+VIEW_SRC = """
+@{DEC}
+def main(zone: grid.Grid[Any, Any], sites: ilist.IList[tuple[int, int], Any], xi: ilist.IList[int, Any], yi: ilist.IList[int, Any]):
+    v = filled.vacate(zone, sites)
+    a = grid.sub_grid(v, xi, yi)
+    b = grid.shift(v, 1.0, 2.0)
+    c = grid.scale(v, 2.0, 0.5)
+    d = grid.sub_grid(grid.shift(filled.vacate(zone, sites), 0.5, 0.0), xi, yi)
+    e = grid.sub_grid(filled.fill(zone, sites), xi, yi)
+    f = filled.vacate(grid.sub_grid(filled.vacate(zone, sites), xi, yi), [(0, 0)])
+    return (a, b, c, d, e, f)
+"""
+
+
+def kernel_level_views(ctx):
+    """a view / shift / scale taken DIRECTLY of the result of vacate / fill in the same kernel body (where a pipeline rewrite could
+    reorder the two statements), in every kernel kind, with non-identity index selections"""
+    from bloqade.geometry.dialects.grid import Grid
+    from bloqade.shuttle import prelude
+    from kirin.dialects import ilist
+    FGc = FG()
+    zones = [Grid.from_positions([0.0, 1.0, 2.5], [0.0, 2.0]), Grid.from_positions([0.0, 2.0], [1.0, 2.0, 4.0]), Grid.from_positions([0.0, 3.0], [0.0, 3.0]),
+             Grid.from_positions([0.0, 1.0, 2.0, 3.5], [5.0, 6.0, 8.0])]
+    n_ok = 0
+    for dec in ("move", "kernel", "tweezer"):
+        src = VIEW_SRC.replace("{DEC}", dec)
+        try:
+            m = kernels.define(src, kernel=prelude.kernel)["main"]
+        except Exception as e:
+            ctx.evaluations += 1
+            ctx.fail({"kind": "kernel-rejected", "decorator": dec, "form": "views", "error": type(e).__name__}, {"view_src": src, "decorator": dec},
+                     f"@{dec} rejects a kernel taking views of a vacated grid: {type(e).__name__}: {str(e)[:140]}")
+            continue
+        for z in zones:
+            nx, ny = z.shape
+            for sites, xi, yi in (([(nx - 1, ny - 1), (0, 0)], list(range(1, nx)), list(range(1, ny))),
+                                  ([(nx - 1, 0)], [nx - 1, 0], [0]),
+                                  ([(0, ny - 1), (1, 0)], [1, 1, 0], [ny - 1, 0])):
+                X, Y = ilist.IList(xi), ilist.IList(yi)
+                v = FGc.vacate(z, sites)
+                want = (v.get_view(X, Y), v.shift(1.0, 2.0), v.scale(2.0, 0.5), v.shift(0.5, 0.0).get_view(X, Y),
+                        FGc.fill(z, sites).get_view(X, Y), FGc.vacate(v.get_view(X, Y), [(0, 0)]))
+                ctx.evaluations += 1
+                rep = {"view_src": src, "decorator": dec, "zone_shape": [nx, ny], "sites": [list(t) for t in sites], "xi": xi, "yi": yi}
+                try:
+                    got = m(z, ilist.IList(sites), X, Y)
+                except Exception as e:
+                    ctx.fail({"kind": "kernel-raises", "decorator": dec, "form": "views"}, rep,
+                             f"@{dec} kernel taking views of a vacated {nx}x{ny} grid raises {type(e).__name__}: {str(e)[:120]}")
+                    continue
+                bad = [nm for nm, x, y in zip("abcdef", got, want) if show_val(x) != show_val(y) or not (x == y) or hash(x) != hash(y)]
+                if bad:
+                    ctx.fail({"kind": "kernel-vs-method", "decorator": dec, "form": "views"}, rep,
+                             f"@{dec} kernel: view/shift/scale taken directly of vacate(zone, {sites}) on a {nx}x{ny} grid with x{xi} y{yi}: values {bad} "
+                             f"differ from the Python methods (e.g. {show_val(got['abcdef'.index(bad[0])])[:120]} vs {show_val(want['abcdef'.index(bad[0])])[:120]})")
+                else:
+                    n_ok += 1
+                    ctx.nt(("kernel-view", dec, nx, ny, tuple(xi)))
+    ctx.count("kernel-level views/shift/scale taken directly of vacate/fill x kernel kinds x grids x selections: agree with the methods", n_ok)
+
+
 SPEC_ZONE_SRC = """
 @{DEC}
 def main(more: ilist.IList[tuple[int, int], Any]):
@@ -688,6 +749,7 @@ def run(ctx):
     ctx.correspondence("Model.Filled (over GridQ) vs FilledGrid methods: underlying grid, vacancy set, positions", len(cases), mism)
     kernel_level(ctx)
     kernel_level_forms(ctx)
+    kernel_level_views(ctx)
     spec_zone_forms(ctx)
     ctx.explanation = ("23 theorems, parametric in the underlying grid and its operations (so independent of bloqade.geometry's arithmetic): "
                        "denotation, cumulative fill/vacate, shift/scale commute, views re-index for ALL index selections, repeat tiles for any "
@@ -714,6 +776,16 @@ def replay(data):
             def count(s, *a): pass
         k = K()
         kernel_level_forms(k)
+        mine = [w for d, w in k.fails if d == inp.get("decorator")]
+        return bool(mine), (mine or ["agrees with the methods"])[0][:200]
+    if "view_src" in inp:
+        class K:
+            def __init__(s): s.fails, s.evaluations = [], 0
+            def fail(s, sig, rep, what): s.fails.append((rep.get("decorator"), what))
+            def nt(s, *a): pass
+            def count(s, *a): pass
+        k = K()
+        kernel_level_views(k)
         mine = [w for d, w in k.fails if d == inp.get("decorator")]
         return bool(mine), (mine or ["agrees with the methods"])[0][:200]
     if "spec_zone_src" in inp:
